@@ -197,3 +197,15 @@ def tie_calendar(seed, tier):
     if not ok:
         d.append(dict(process="civil_range", source="exhaustive", expected=str(exp), got=got))
     return [st, st2], d
+
+
+def tie_session(seed, tier):
+    """sessions of public-API calls on real AquaCropModel objects vs the Lean session state machine (WP S)"""
+    from .lines import session as X
+    return X.tie_session(seed, tier)
+
+
+def tie_weather(seed, tier):
+    """random weather tables through the implementation's own weather handling vs the Lean model (WP T)"""
+    from .lines import weather_bind as WB
+    return WB.tie_weather(seed, tier)
